@@ -1,1 +1,878 @@
-(* stub: to be written by group Costs *)
+(* C17: the total-cost tables of the model (Model/Costs.v, exact arithmetic)
+   are the tables of the declarative specification Spec/MaxCost.v, for every
+   list of deltas whose per-security rows are in chronological order. *)
+From Coq Require Import List NArith ZArith QArith Qcanon Bool Lia Permutation Sorting.Sorted.
+From ACB Require Import Base.Outcome Base.QcExtra Base.Arith Model.Tx Model.Costs Model.HashSites
+     Spec.MaxCost Proofs.Tactics Proofs.SortPerm Proofs.HashOrder.
+Import ListNotations.
+Local Open Scope Z_scope.
+
+(* ------------------------------------------------------------------ *)
+(* association lists keyed by security                                  *)
+
+Lemma alookup_aupdate_eq {V} k (v : V) l : alookup k (aupdate k v l) = Some v.
+Proof.
+  induction l as [|[k' v'] r IH]; cbn [aupdate alookup].
+  - rewrite N.eqb_refl. reflexivity.
+  - destruct (N.eqb_spec k k') as [->|Hne]; cbn [alookup].
+    + rewrite N.eqb_refl. reflexivity.
+    + destruct (N.eqb_spec k k'); [contradiction|]. exact IH.
+Qed.
+Lemma alookup_aupdate_neq {V} k k' (v : V) l : k <> k' -> alookup k (aupdate k' v l) = alookup k l.
+Proof.
+  intros Hne. induction l as [|[k2 v2] r IH]; cbn [aupdate alookup].
+  - destruct (N.eqb_spec k k'); [contradiction|]. reflexivity.
+  - destruct (N.eqb_spec k' k2) as [->|Hne2]; cbn [alookup].
+    + destruct (N.eqb_spec k k2); [contradiction|]. reflexivity.
+    + destruct (N.eqb_spec k k2); [reflexivity|]. exact IH.
+Qed.
+Lemma alookup_in_keys {V} k (l : list (N * V)) : In k (map fst l) <-> exists v, alookup k l = Some v.
+Proof.
+  split.
+  - induction l as [|[k' v'] r IH]; cbn [map fst alookup]; [intros []|].
+    intros [E|Hin]; destruct (N.eqb_spec k k') as [->|Hne]; eauto; congruence.
+  - intros [v Hv]. apply alookup_some_in in Hv. change k with (fst (k, v)). apply in_map. exact Hv.
+Qed.
+Lemma amem_true {V} k (l : list (N * V)) : amem k l = true <-> In k (map fst l).
+Proof.
+  unfold amem. rewrite alookup_in_keys. destruct (alookup k l); split; intros H; eauto; try discriminate.
+  destruct H as [v Hv]. discriminate.
+Qed.
+Lemma aupdate_keys_in {V} k k' (v : V) l : In k (map fst (aupdate k' v l)) <-> k = k' \/ In k (map fst l).
+Proof.
+  rewrite !alookup_in_keys. destruct (N.eq_dec k k') as [->|Hne].
+  - rewrite alookup_aupdate_eq. split; eauto.
+  - rewrite alookup_aupdate_neq by exact Hne. split; [eauto|]. intros [E|H]; [contradiction|exact H].
+Qed.
+Lemma aupdate_nodup {V} k (v : V) l : NoDup (map fst l) -> NoDup (map fst (aupdate k v l)).
+Proof.
+  induction l as [|[k' v'] r IH]; intros Hn; cbn [aupdate map fst].
+  - constructor; [intros []|constructor].
+  - cbn [map fst] in Hn. inversion Hn as [|? ? Hnin Hn']; subst.
+    destruct (N.eqb_spec k k') as [->|Hne]; cbn [map fst].
+    + constructor; assumption.
+    + constructor; [|apply IH; exact Hn'].
+      intros Hin. apply aupdate_keys_in in Hin. destruct Hin as [E|Hin]; [congruence|contradiction].
+Qed.
+
+Definition asum (l : list (N * Qc)) : Qc := qsum (map snd l).
+Definition aval (k : N) (l : list (N * Qc)) : Qc := match alookup k l with Some v => v | None => 0%Qc end.
+
+Lemma asum_aupdate k v l : NoDup (map fst l) -> asum (aupdate k v l) = (asum l - aval k l + v)%Qc.
+Proof.
+  unfold asum, aval. induction l as [|[k' v'] r IH]; intros Hn; cbn [aupdate map snd qsum fold_right alookup].
+  - ring.
+  - cbn [map fst] in Hn. inversion Hn as [|? ? Hnin Hn']; subst.
+    destruct (N.eqb_spec k k') as [->|Hne]; cbn [map snd qsum fold_right].
+    + fold (qsum (map snd r)). ring.
+    + fold (qsum (map snd r)) (qsum (map snd (aupdate k v r))). rewrite (IH Hn'). ring.
+Qed.
+
+Lemma asum_nonneg l : Forall (fun kv => (0 <= snd kv)%Qc) l -> (0 <= asum l)%Qc.
+Proof.
+  unfold asum. induction 1 as [|[k v] r Hv _ IH]; cbn [map snd qsum fold_right].
+  - apply Qcle_refl.
+  - fold (qsum (map snd r)). cbn [snd] in Hv. qc_lra.
+Qed.
+
+Lemma aupdate_forall {V} (P : N * V -> Prop) k v l : Forall P l -> P (k, v) -> Forall P (aupdate k v l).
+Proof.
+  intros Hl Hv. induction Hl as [|[k' v'] r Hh Hr IH]; cbn [aupdate].
+  - constructor; [exact Hv|constructor].
+  - destruct (N.eqb k k'); constructor; assumption.
+Qed.
+
+(* sum over an association list = sum of the lookups over any duplicate-free
+   enumeration of its keys *)
+Lemma qsum_cons x l : qsum (x :: l) = (x + qsum l)%Qc.
+Proof. reflexivity. Qed.
+Lemma asum_by_keys l : NoDup (map fst l) -> asum l = qsum (map (fun k => aval k l) (map fst l)).
+Proof.
+  unfold asum. induction l as [|[k v] r IH]; intros Hn; [reflexivity|].
+  cbn [map fst snd] in *. inversion Hn as [|? ? Hnin Hn']; subst.
+  rewrite !qsum_cons. rewrite (IH Hn'). f_equal.
+  - unfold aval. cbn [alookup]. rewrite N.eqb_refl. reflexivity.
+  - f_equal. apply map_ext_in. intros k' Hk'. unfold aval. cbn [alookup].
+    destruct (N.eqb_spec k' k) as [->|Hne]; [contradiction|reflexivity].
+Qed.
+Lemma qsum_perm l l' : Permutation l l' -> qsum l = qsum l'.
+Proof. apply qtotal_perm. Qed.
+Lemma asum_over l ks :
+  NoDup (map fst l) -> NoDup ks -> (forall k, In k ks <-> In k (map fst l)) ->
+  asum l = qsum (map (fun k => aval k l) ks).
+Proof.
+  intros Hn Hks Hiff. rewrite (asum_by_keys l Hn). apply qsum_perm. apply Permutation_map.
+  apply NoDup_Permutation; try assumption. intros k. symmetry. apply Hiff.
+Qed.
+
+(* ------------------------------------------------------------------ *)
+(* the specification along a growing prefix of the delta list            *)
+
+Definition srow (s : N) (c : cdelta) : bool := counted c && N.eqb (cd_sec c) s.
+Definition on_day (d : Z) (l : list cdelta) : list cdelta := filter (fun c => cd_day c =? d) l.
+Definition dmax (p : list cdelta) (d : Z) (s : N) : option Qc :=
+  qmax_list (map post_of (on_day d (rows_of p s))).
+Definition dclose (p : list cdelta) (d : Z) (s : N) : option Qc :=
+  option_map post_of (last_opt (on_day d (rows_of p s))).
+Definition zero_of (p : list cdelta) (s : N) : option (Z * Qc) :=
+  match rows_of p s with c :: _ => Some (cd_day c, pre_of c) | [] => None end.
+
+Lemma rows_of_snoc p c s : rows_of (p ++ [c]) s = rows_of p s ++ (if srow s c then [c] else []).
+Proof. unfold rows_of. rewrite filter_app. cbn [filter]. fold (srow s c). destruct (srow s c); reflexivity. Qed.
+
+Lemma qmax_list_snoc l x :
+  qmax_list (l ++ [x]) = Some (match qmax_list l with Some m => Qcmax m x | None => x end).
+Proof.
+  destruct l as [|a r]; cbn [qmax_list app]; [reflexivity|].
+  rewrite fold_left_app. reflexivity.
+Qed.
+
+Lemma last_opt_snoc {X} (l : list X) x : last_opt (l ++ [x]) = Some x.
+Proof.
+  induction l as [|a r IH]; [reflexivity|].
+  cbn [app]. destruct r as [|b r']; [reflexivity|]. exact IH.
+Qed.
+Lemma last_opt_app {X} (l l' : list X) : l' <> [] -> last_opt (l ++ l') = last_opt l'.
+Proof.
+  intros Hne. induction l as [|a r IH]; [reflexivity|].
+  cbn [app]. destruct (r ++ l') as [|b t] eqn:E.
+  - destruct r; [cbn [app] in E; contradiction|discriminate].
+  - exact IH.
+Qed.
+
+Lemma dmax_snoc p c d s :
+  dmax (p ++ [c]) d s =
+  if srow s c && (cd_day c =? d)
+  then Some (match dmax p d s with Some m => Qcmax m (post_of c) | None => post_of c end)
+  else dmax p d s.
+Proof.
+  unfold dmax. rewrite rows_of_snoc. unfold on_day. rewrite filter_app.
+  destruct (srow s c); cbn [filter andb].
+  - destruct (cd_day c =? d); [|rewrite app_nil_r; reflexivity].
+    rewrite map_app. cbn [map]. apply qmax_list_snoc.
+  - rewrite app_nil_r. reflexivity.
+Qed.
+
+Lemma dclose_snoc p c d s :
+  dclose (p ++ [c]) d s = if srow s c && (cd_day c =? d) then Some (post_of c) else dclose p d s.
+Proof.
+  unfold dclose. rewrite rows_of_snoc. unfold on_day. rewrite filter_app.
+  destruct (srow s c); cbn [filter andb].
+  - destruct (cd_day c =? d); [|rewrite app_nil_r; reflexivity].
+    rewrite last_opt_snoc. reflexivity.
+  - rewrite app_nil_r. reflexivity.
+Qed.
+
+Lemma zero_of_snoc p c s :
+  zero_of (p ++ [c]) s =
+  match zero_of p s with
+  | Some z => Some z
+  | None => if srow s c then Some (cd_day c, pre_of c) else None
+  end.
+Proof.
+  unfold zero_of. rewrite rows_of_snoc. destruct (rows_of p s) as [|a r]; cbn [app].
+  - destruct (srow s c); reflexivity.
+  - reflexivity.
+Qed.
+
+Lemma spec_notes_snoc p c :
+  spec_notes (p ++ [c]) = spec_notes p ++ (if counted c then [] else [note_of c]).
+Proof.
+  unfold spec_notes. rewrite filter_app, map_app. cbn [filter]. destruct (counted c); reflexivity.
+Qed.
+
+(* ------------------------------------------------------------------ *)
+(* observe_new_cost under exact arithmetic                               *)
+
+Definition rec_ok (r : dayrec) : Prop :=
+  dr_total r = asum (dr_costs r) /\ NoDup (map fst (dr_costs r)) /\
+  Forall (fun kv : N * Qc => (0 <= snd kv)%Qc) (dr_costs r).
+
+Lemma rec_ok_0 : rec_ok dayrec0.
+Proof. repeat split; cbn; constructor. Qed.
+
+Lemma gez_unwrap_nonneg site q : (0 <= q)%Qc -> gez_unwrap site q = Ok q.
+Proof. intros H. unfold gez_unwrap. apply Qcleb_true in H. rewrite H. reflexivity. Qed.
+
+Lemma Qcmax_ge_r a b : (b <= Qcmax a b)%Qc.
+Proof. unfold Qcmax. destruct (Qcltb a b) eqn:E; qc_bool; qc_lra. Qed.
+Lemma Qcmax_0_l b : (0 <= b)%Qc -> Qcmax 0 b = b.
+Proof.
+  intros H. unfold Qcmax. destruct (Qcltb 0 b) eqn:E; [reflexivity|]. qc_bool. qc_lra.
+Qed.
+
+Lemma observe_exact r sec acb :
+  rec_ok r -> (0 <= acb)%Qc ->
+  let cur := Qcmax (aval sec (dr_costs r)) acb in
+  observe exact r sec acb = Ok {| dr_total := asum (aupdate sec cur (dr_costs r));
+                                  dr_costs := aupdate sec cur (dr_costs r) |}
+  /\ rec_ok {| dr_total := asum (aupdate sec cur (dr_costs r)); dr_costs := aupdate sec cur (dr_costs r) |}.
+Proof.
+  intros [Ht [Hn Hf]] Hacb cur.
+  assert (Hcur : (0 <= cur)%Qc).
+  { unfold cur. eapply Qcle_trans; [exact Hacb|apply Qcmax_ge_r]. }
+  assert (Hok : rec_ok {| dr_total := asum (aupdate sec cur (dr_costs r)); dr_costs := aupdate sec cur (dr_costs r) |}).
+  { repeat split; cbn [dr_total dr_costs].
+    - apply aupdate_nodup. exact Hn.
+    - apply aupdate_forall; [exact Hf|exact Hcur]. }
+  split; [|exact Hok].
+  unfold observe. fold (aval sec (dr_costs r)). fold cur.
+  rewrite (gez_unwrap_nonneg _ cur Hcur). cbn [bind a_sub a_add exact].
+  rewrite Ht. rewrite <- (asum_aupdate sec cur (dr_costs r) Hn).
+  rewrite gez_unwrap_nonneg; [reflexivity|].
+  apply asum_nonneg. destruct Hok as [_ [_ H]]. exact H.
+Qed.
+
+(* ------------------------------------------------------------------ *)
+(* first loop of calc_max_day_cost_per_sec                               *)
+
+Definition day_costs (days : list (Z * dayrec)) (d : Z) (s : N) : option Qc :=
+  match zlookup d days with Some r => alookup s (dr_costs r) | None => None end.
+Definition close_at (close : list (Z * list (N * Qc))) (d : Z) (s : N) : option Qc :=
+  match zlookup d close with Some c => alookup s c | None => None end.
+
+Record Inv1 (p : list cdelta) (st : st1) : Prop := {
+  i_days_ok : forall d r, zlookup d (s_days st) = Some r -> rec_ok r;
+  i_days : forall d s, day_costs (s_days st) d s = dmax p d s;
+  i_keys : NoDup (map fst (s_days st));
+  i_keys_in : forall d, In d (map fst (s_days st)) <->
+                        exists c, In c p /\ counted c = true /\ cd_day c = d;
+  i_close : forall d s, close_at (s_close st) d s = dclose p d s;
+  i_zero : forall s, alookup s (s_zero st) = zero_of p s;
+  i_secs : NoDup (s_secs st);
+  i_secs_in : forall s, In s (s_secs st) <-> rows_of p s <> [];
+  i_notes : s_notes st = spec_notes p
+}.
+
+Lemma Inv1_nil : Inv1 [] st1_0.
+Proof.
+  constructor; cbn; try reflexivity; try constructor; try discriminate; try tauto.
+  - intros [c [[] _]].
+Qed.
+
+Lemma zupdate_keys_in {V} k k' (v : V) l : In k (map fst (zupdate k' v l)) <-> k = k' \/ In k (map fst l).
+Proof.
+  rewrite !zlookup_in_keys. destruct (Z.eq_dec k k') as [->|Hne].
+  - rewrite zlookup_zupdate_eq. split; eauto.
+  - rewrite zlookup_zupdate_neq by exact Hne. split; [eauto|]. intros [E|H]; [contradiction|exact H].
+Qed.
+
+Lemma nmem_true x l : nmem x l = true <-> In x l.
+Proof.
+  unfold nmem. rewrite existsb_exists. split.
+  - intros [y [Hy E]]. apply N.eqb_eq in E. subst. exact Hy.
+  - intros H. exists x. split; [exact H|apply N.eqb_refl].
+Qed.
+
+Lemma alookup_snoc_none {V} k k' (v : V) l :
+  alookup k l = None -> alookup k (l ++ [(k', v)]) = if N.eqb k k' then Some v else None.
+Proof.
+  induction l as [|[k2 v2] r IH]; cbn [alookup app]; [reflexivity|].
+  destruct (N.eqb k k2); [discriminate|]. exact IH.
+Qed.
+Lemma alookup_snoc_some {V} k k' (v v0 : V) l :
+  alookup k l = Some v0 -> alookup k (l ++ [(k', v)]) = Some v0.
+Proof.
+  induction l as [|[k2 v2] r IH]; cbn [alookup app]; [discriminate|].
+  destruct (N.eqb k k2); [tauto|]. exact IH.
+Qed.
+
+Lemma mcounted_faithful c :
+  faithful_delta c -> counted c = is_some (cd_post c) && cd_dflt c.
+Proof.
+  unfold faithful_delta, counted. destruct (cd_post c) as [p|]; cbn [is_some].
+  - intros H. rewrite H by discriminate. rewrite andb_true_r. reflexivity.
+  - intros _. rewrite andb_false_r. reflexivity.
+Qed.
+
+Lemma srow_counted s c : counted c = true -> srow s c = N.eqb (cd_sec c) s.
+Proof. intros H. unfold srow. rewrite H. reflexivity. Qed.
+Lemma srow_not_counted s c : counted c = false -> srow s c = false.
+Proof. intros H. unfold srow. rewrite H. reflexivity. Qed.
+
+(* a row that does not count only adds a note *)
+Lemma step1_skip p st c :
+  Inv1 p st -> faithful_delta c -> counted c = false ->
+  exists st', step1 exact st c = Ok st' /\ Inv1 (p ++ [c]) st'.
+Proof.
+  intros HI Hf Hc. pose proof (mcounted_faithful c Hf) as Hm. rewrite Hc in Hm.
+  assert (Hrows : forall s, rows_of (p ++ [c]) s = rows_of p s).
+  { intros s. rewrite rows_of_snoc, srow_not_counted by exact Hc. apply app_nil_r. }
+  assert (Hinv : forall st', s_days st' = s_days st -> s_zero st' = s_zero st -> s_secs st' = s_secs st ->
+                             s_close st' = s_close st -> s_notes st' = s_notes st ++ [note_of c] ->
+                             Inv1 (p ++ [c]) st').
+  { intros st' E1 E2 E3 E4 E5. destruct HI. constructor; rewrite ?E1, ?E2, ?E3, ?E4, ?E5.
+    - assumption.
+    - intros d s. rewrite i_days0. unfold dmax. rewrite Hrows. reflexivity.
+    - assumption.
+    - intros d. rewrite i_keys_in0. split; intros [c' [Hin [Hc' Hd]]]; exists c'; repeat split; try assumption.
+      + apply in_or_app. left. exact Hin.
+      + apply in_app_or in Hin. destruct Hin as [Hin|[E|[]]]; [exact Hin|]. subst c'. congruence.
+    - intros d s. rewrite i_close0. unfold dclose. rewrite Hrows. reflexivity.
+    - intros s. rewrite i_zero0. unfold zero_of. rewrite Hrows. reflexivity.
+    - assumption.
+    - intros s. rewrite i_secs_in0, Hrows. reflexivity.
+    - rewrite spec_notes_snoc, Hc, i_notes0. reflexivity. }
+  unfold step1. destruct (cd_post c) as [acb|] eqn:Ep.
+  - cbn [is_some andb] in Hm. rewrite <- Hm. cbn [negb].
+    eexists. split; [reflexivity|]. apply Hinv; try reflexivity.
+    cbn [s_notes]. unfold note_of. rewrite Ep. reflexivity.
+  - eexists. split; [reflexivity|]. apply Hinv; try reflexivity.
+    cbn [s_notes]. unfold note_of. rewrite Ep. reflexivity.
+Qed.
+
+Lemma NoDup_snoc {X} (l : list X) x : NoDup l -> ~ In x l -> NoDup (l ++ [x]).
+Proof.
+  intros Hn Hx. apply (Permutation_NoDup (l := x :: l)); [apply Permutation_cons_append|].
+  constructor; assumption.
+Qed.
+
+(* the state after a counted row, given how the day-zero map was extended *)
+Lemma Inv1_counted p st c acb st' :
+  Inv1 p st -> counted c = true -> cd_post c = Some acb -> (0 <= acb)%Qc ->
+  let day := cd_day c in
+  let sec := cd_sec c in
+  let r := match zlookup day (s_days st) with Some r => r | None => dayrec0 end in
+  let cur := Qcmax (aval sec (dr_costs r)) acb in
+  let r' := {| dr_total := asum (aupdate sec cur (dr_costs r)); dr_costs := aupdate sec cur (dr_costs r) |} in
+  let cl := match zlookup day (s_close st) with Some c => c | None => [] end in
+  s_days st' = zupdate day r' (s_days st) ->
+  s_secs st' = (if nmem sec (s_secs st) then s_secs st else s_secs st ++ [sec]) ->
+  s_close st' = zupdate day (aupdate sec acb cl) (s_close st) ->
+  s_notes st' = s_notes st ->
+  (forall s, alookup s (s_zero st') = zero_of (p ++ [c]) s) ->
+  Inv1 (p ++ [c]) st'.
+Proof.
+  intros HI Hc Ep Hacb day sec r cur r' cl E1 E3 E4 E5 Hz.
+  assert (Hr : rec_ok r).
+  { unfold r. destruct (zlookup day (s_days st)) as [r0|] eqn:E; [eapply (i_days_ok _ _ HI); exact E|apply rec_ok_0]. }
+  assert (Hr' : rec_ok r') by (apply (observe_exact r sec acb Hr Hacb)).
+  assert (Hrl : forall s, alookup s (dr_costs r) = dmax p day s).
+  { intros s. rewrite <- (i_days _ _ HI). unfold day_costs, r.
+    destruct (zlookup day (s_days st)); reflexivity. }
+  assert (Hpost : post_of c = acb) by (unfold post_of; rewrite Ep; reflexivity).
+  constructor; rewrite ?E1, ?E3, ?E4, ?E5.
+  - intros d r0. destruct (Z.eq_dec d day) as [->|Hne].
+    + rewrite zlookup_zupdate_eq. intros H. inversion H; subst. exact Hr'.
+    + rewrite zlookup_zupdate_neq by exact Hne. apply (i_days_ok _ _ HI).
+  - intros d s. rewrite dmax_snoc, (srow_counted s c Hc). fold sec day. unfold day_costs.
+    destruct (Z.eq_dec d day) as [->|Hne].
+    + rewrite zlookup_zupdate_eq, Z.eqb_refl, andb_true_r. cbn [dr_costs r'].
+      destruct (N.eqb_spec sec s) as [<-|Hns].
+      * rewrite alookup_aupdate_eq. f_equal. unfold cur, aval. rewrite Hrl, Hpost.
+        destruct (dmax p day sec); [reflexivity|]. apply Qcmax_0_l. exact Hacb.
+      * rewrite alookup_aupdate_neq by (intros E; apply Hns; symmetry; exact E). apply Hrl.
+    + rewrite zlookup_zupdate_neq by exact Hne.
+      destruct (Z.eqb_spec day d) as [E|_]; [exfalso; apply Hne; symmetry; exact E|].
+      rewrite andb_false_r. apply (i_days _ _ HI).
+  - apply zupdate_nodup. apply (i_keys _ _ HI).
+  - intros d. rewrite zupdate_keys_in, (i_keys_in _ _ HI). split.
+    + intros [->|[c' [Hin [Hc' Hd]]]].
+      * exists c. repeat split; [apply in_or_app; right; left; reflexivity|exact Hc].
+      * exists c'. repeat split; try assumption. apply in_or_app. left. exact Hin.
+    + intros [c' [Hin [Hc' Hd]]]. apply in_app_or in Hin. destruct Hin as [Hin|[E|[]]].
+      * right. exists c'. repeat split; assumption.
+      * left. subst c'. symmetry. exact Hd.
+  - intros d s. rewrite dclose_snoc, (srow_counted s c Hc). fold sec day. unfold close_at.
+    assert (Hcl : alookup s cl = dclose p day s).
+    { rewrite <- (i_close _ _ HI). unfold close_at, cl. destruct (zlookup day (s_close st)); reflexivity. }
+    destruct (Z.eq_dec d day) as [->|Hne].
+    + rewrite zlookup_zupdate_eq, Z.eqb_refl, andb_true_r.
+      destruct (N.eqb_spec sec s) as [<-|Hns].
+      * rewrite alookup_aupdate_eq, Hpost. reflexivity.
+      * rewrite alookup_aupdate_neq by (intros E; apply Hns; symmetry; exact E). exact Hcl.
+    + rewrite zlookup_zupdate_neq by exact Hne.
+      destruct (Z.eqb_spec day d) as [E|_]; [exfalso; apply Hne; symmetry; exact E|].
+      rewrite andb_false_r. apply (i_close _ _ HI).
+  - exact Hz.
+  - destruct (nmem sec (s_secs st)) eqn:E; [apply (i_secs _ _ HI)|].
+    apply NoDup_snoc; [apply (i_secs _ _ HI)|]. intros Hin. apply nmem_true in Hin. congruence.
+  - intros s. rewrite rows_of_snoc, (srow_counted s c Hc). fold sec.
+    assert (Hold := i_secs_in _ _ HI s).
+    destruct (N.eqb_spec sec s) as [<-|Hns].
+    + split; [intros _ E; apply app_eq_nil in E; destruct E as [_ E]; discriminate|].
+      intros _. destruct (nmem sec (s_secs st)) eqn:E; [apply nmem_true; exact E|].
+      apply in_or_app. right. left. reflexivity.
+    + rewrite app_nil_r, <- Hold.
+      destruct (nmem sec (s_secs st)); [reflexivity|].
+      rewrite in_app_iff. cbn [In].
+      split; [intros [H|[H|[]]]; [exact H|contradiction] | intros H; left; exact H].
+  - rewrite spec_notes_snoc, Hc, app_nil_r. apply (i_notes _ _ HI).
+Qed.
+
+Lemma step1_counted p st c :
+  Inv1 p st -> valid_delta c -> faithful_delta c -> counted c = true ->
+  (forall c', In c' (rows_of p (cd_sec c)) -> cd_day c' <= cd_day c) ->
+  exists st', step1 exact st c = Ok st' /\ Inv1 (p ++ [c]) st'.
+Proof.
+  intros HI Hv Hf Hc Hsort.
+  destruct (Hv Hc) as [[acb [Ep Hacb]] [q [Eq Hq]]].
+  pose proof (mcounted_faithful c Hf) as Hm. rewrite Hc, Ep in Hm. cbn [is_some andb] in Hm.
+  set (day := cd_day c). set (sec := cd_sec c).
+  set (r := match zlookup day (s_days st) with Some r => r | None => dayrec0 end).
+  assert (Hr : rec_ok r).
+  { unfold r. destruct (zlookup day (s_days st)) as [r0|] eqn:E; [eapply (i_days_ok _ _ HI); exact E|apply rec_ok_0]. }
+  destruct (observe_exact r sec acb Hr Hacb) as [Hobs _].
+  unfold step1. rewrite Ep, <- Hm. cbn [negb]. fold day sec r. rewrite Hobs. cbn [bind].
+  assert (Hpre : pre_of c = q) by (unfold pre_of; rewrite Eq; reflexivity).
+  destruct (alookup sec (s_zero st)) as [[d0 p0]|] eqn:Ez.
+  - (* the security was seen before: its first day is not later *)
+    assert (Hd0 : (day <? d0) = false).
+    { rewrite (i_zero _ _ HI) in Ez. unfold zero_of in Ez.
+      destruct (rows_of p sec) as [|c0 rest] eqn:Er; [discriminate|]. inversion Ez; subst.
+      apply Z.ltb_ge. apply Hsort. fold sec. rewrite Er. left. reflexivity. }
+    rewrite Hd0. eexists. split; [reflexivity|].
+    eapply (Inv1_counted p st c acb); try eassumption; try reflexivity.
+    intros s. cbn [s_zero]. rewrite zero_of_snoc, (srow_counted s c Hc), <- (i_zero _ _ HI). fold sec.
+    destruct (alookup s (s_zero st)) as [z|] eqn:E; [reflexivity|].
+    destruct (N.eqb_spec sec s) as [<-|_]; [congruence|reflexivity].
+  - rewrite Eq. eexists. split; [reflexivity|].
+    eapply (Inv1_counted p st c acb); try eassumption; try reflexivity.
+    intros s. cbn [s_zero]. rewrite zero_of_snoc, (srow_counted s c Hc), <- (i_zero _ _ HI). fold sec day.
+    destruct (alookup s (s_zero st)) as [z|] eqn:E.
+    + erewrite alookup_snoc_some; [reflexivity|exact E].
+    + rewrite (alookup_snoc_none _ _ _ _ E). rewrite N.eqb_sym, Hpre. reflexivity.
+Qed.
+
+Lemma mfold_app {S X} (f : S -> X -> res S) l l' s :
+  mfold f (l ++ l') s = (s' <- mfold f l s ;; mfold f l' s').
+Proof.
+  revert s. induction l as [|x r IH]; intros s; cbn [app mfold bind]; [reflexivity|].
+  destruct (f s x); cbn [bind]; try reflexivity. apply IH.
+Qed.
+
+Lemma StronglySorted_app_l {X} (R : X -> X -> Prop) l l' : StronglySorted R (l ++ l') -> StronglySorted R l.
+Proof.
+  induction l as [|a r IH]; intros H; [constructor|].
+  cbn [app] in H. inversion H as [|? ? Hs Hall]; subst. constructor; [apply IH; exact Hs|].
+  apply Forall_app in Hall. tauto.
+Qed.
+Lemma StronglySorted_snoc_all {X} (R : X -> X -> Prop) l x :
+  StronglySorted R (l ++ [x]) -> Forall (fun a => R a x) l.
+Proof.
+  induction l as [|a r IH]; intros H; [constructor|].
+  cbn [app] in H. inversion H as [|? ? Hs Hall]; subst. constructor; [|apply IH; exact Hs].
+  apply Forall_app in Hall. destruct Hall as [_ Hx]. inversion Hx; assumption.
+Qed.
+
+Lemma chronological_prefix p c : chronological (p ++ [c]) -> chronological p.
+Proof.
+  intros H s. specialize (H s). rewrite rows_of_snoc in H. eapply StronglySorted_app_l. exact H.
+Qed.
+
+Theorem loop1_spec ds :
+  Forall valid_delta ds -> Forall faithful_delta ds -> chronological ds ->
+  exists st, loop1 exact ds = Ok st /\ Inv1 ds st.
+Proof.
+  unfold loop1. induction ds as [|c p IH] using rev_ind; intros Hv Hf Hch.
+  - exists st1_0. split; [reflexivity|apply Inv1_nil].
+  - apply Forall_app in Hv. destruct Hv as [Hvp Hvc]. inversion Hvc as [|? ? Hvc' _]; subst.
+    apply Forall_app in Hf. destruct Hf as [Hfp Hfc]. inversion Hfc as [|? ? Hfc' _]; subst.
+    destruct (IH Hvp Hfp (chronological_prefix _ _ Hch)) as [st [Hst HI]].
+    rewrite mfold_app, Hst. cbn [bind mfold].
+    destruct (counted c) eqn:Hc.
+    + destruct (step1_counted p st c HI Hvc' Hfc' Hc) as [st' [Hs HI']].
+      * specialize (Hch (cd_sec c)). rewrite rows_of_snoc, (srow_counted _ c Hc), N.eqb_refl in Hch.
+        apply StronglySorted_snoc_all in Hch. rewrite Forall_forall in Hch. exact Hch.
+      * rewrite Hs. cbn [bind]. exists st'. split; [reflexivity|exact HI'].
+    + destruct (step1_skip p st c HI Hfc' Hc) as [st' [Hs HI']].
+      rewrite Hs. cbn [bind]. exists st'. split; [reflexivity|exact HI'].
+Qed.
+
+(* ------------------------------------------------------------------ *)
+(* second loop: filling one day                                          *)
+
+Definition lk_nonneg (l : list (N * Qc)) : Prop := forall s v, alookup s l = Some v -> (0 <= v)%Qc.
+Definition zero_pre (zero : list (N * (Z * Qc))) (s : N) : Qc :=
+  match alookup s zero with Some (_, p) => p | None => 0%Qc end.
+Definition lastval (zero : list (N * (Z * Qc))) (last : list (N * Qc)) (s : N) : Qc :=
+  match alookup s last with Some v => v | None => zero_pre zero s end.
+Definition valf zero (r : dayrec) last (s : N) : Qc :=
+  match alookup s (dr_costs r) with Some v => v | None => lastval zero last s end.
+Definition carf zero (cl : list (N * Qc)) (r : dayrec) last (s : N) : Qc :=
+  match alookup s cl with Some c => c | None => valf zero r last s end.
+
+Lemma rec_ok_lookup_nonneg r s v : rec_ok r -> alookup s (dr_costs r) = Some v -> (0 <= v)%Qc.
+Proof.
+  intros [_ [_ Hf]] H. apply alookup_some_in in H. rewrite Forall_forall in Hf. apply (Hf (s, v) H).
+Qed.
+
+Lemma lk_nonneg_update l s v : lk_nonneg l -> (0 <= v)%Qc -> lk_nonneg (aupdate s v l).
+Proof.
+  intros Hl Hv s' v'. destruct (N.eq_dec s' s) as [->|Hne].
+  - rewrite alookup_aupdate_eq. intros H. inversion H; subst. exact Hv.
+  - rewrite alookup_aupdate_neq by exact Hne. apply Hl.
+Qed.
+
+Definition zero_ok (zero : list (N * (Z * Qc))) (q : list N) : Prop :=
+  forall s, In s q -> exists d0 p0, alookup s zero = Some (d0, p0) /\ (0 <= p0)%Qc.
+
+Lemma fill_sec_spec zero cl r last s :
+  rec_ok r -> lk_nonneg last -> lk_nonneg cl ->
+  (exists d0 p0, alookup s zero = Some (d0, p0) /\ (0 <= p0)%Qc) ->
+  exists r' last',
+    fill_sec exact CarryClosing zero cl (r, last) s = Ok (r', last') /\
+    rec_ok r' /\ lk_nonneg last' /\
+    alookup s (dr_costs r') = Some (valf zero r last s) /\
+    (forall s', s' <> s -> alookup s' (dr_costs r') = alookup s' (dr_costs r)) /\
+    alookup s last' = Some (carf zero cl r last s) /\
+    (forall s', s' <> s -> alookup s' last' = alookup s' last).
+Proof.
+  intros Hr Hl Hcl [d0 [p0 [Hz Hp0]]].
+  assert (Hv : (0 <= valf zero r last s)%Qc).
+  { unfold valf, lastval, zero_pre. destruct (alookup s (dr_costs r)) as [v|] eqn:E1.
+    - eapply rec_ok_lookup_nonneg; eassumption.
+    - destruct (alookup s last) as [v|] eqn:E2; [eapply Hl; exact E2|]. rewrite Hz. exact Hp0. }
+  assert (Hc : (0 <= carf zero cl r last s)%Qc).
+  { unfold carf. destruct (alookup s cl) as [c|] eqn:E; [eapply Hcl; exact E|exact Hv]. }
+  unfold fill_sec.
+  assert (Ev : match alookup s (dr_costs r) with
+               | Some v => Ok v
+               | None => match alookup s last with
+                         | Some v => Ok v
+                         | None => match alookup s zero with
+                                   | Some (_, p) => Ok p
+                                   | None => Panic (PanicMissing CSite.day_zero)
+                                   end
+                         end
+               end = Ok (valf zero r last s)).
+  { unfold valf, lastval, zero_pre. destruct (alookup s (dr_costs r)); [reflexivity|].
+    destruct (alookup s last); [reflexivity|]. rewrite Hz. reflexivity. }
+  rewrite Ev. cbn [bind]. fold (carf zero cl r last s).
+  destruct (amem s (dr_costs r)) eqn:Em.
+  - exists r, (aupdate s (carf zero cl r last s) last).
+    split; [reflexivity|]. split; [exact Hr|]. split; [apply lk_nonneg_update; assumption|].
+    split; [|split; [|split]].
+    + unfold valf. apply amem_true, alookup_in_keys in Em. destruct Em as [v Ev']. rewrite Ev'. reflexivity.
+    + intros s' Hne. reflexivity.
+    + apply alookup_aupdate_eq.
+    + intros s' Hne. apply alookup_aupdate_neq. exact Hne.
+  - assert (Hnone : alookup s (dr_costs r) = None).
+    { unfold amem in Em. destruct (alookup s (dr_costs r)); [discriminate|reflexivity]. }
+    destruct (observe_exact r s (valf zero r last s) Hr Hv) as [Hobs Hok].
+    assert (Ecur : Qcmax (aval s (dr_costs r)) (valf zero r last s) = valf zero r last s).
+    { unfold aval. rewrite Hnone. apply Qcmax_0_l. exact Hv. }
+    rewrite Ecur in Hobs, Hok. rewrite Hobs. cbn [bind].
+    eexists. eexists. split; [reflexivity|]. split; [exact Hok|].
+    split; [apply lk_nonneg_update; assumption|]. split; [|split; [|split]].
+    + cbn [dr_costs]. apply alookup_aupdate_eq.
+    + intros s' Hne. cbn [dr_costs]. apply alookup_aupdate_neq. exact Hne.
+    + apply alookup_aupdate_eq.
+    + intros s' Hne. apply alookup_aupdate_neq. exact Hne.
+Qed.
+
+Lemma fill_secs_spec zero cl q : forall r last,
+  NoDup q -> rec_ok r -> lk_nonneg last -> lk_nonneg cl -> zero_ok zero q ->
+  exists r' last',
+    mfold (fill_sec exact CarryClosing zero cl) q (r, last) = Ok (r', last') /\
+    rec_ok r' /\ lk_nonneg last' /\
+    (forall s, alookup s (dr_costs r') = if nmem s q then Some (valf zero r last s) else alookup s (dr_costs r)) /\
+    (forall s, alookup s last' = if nmem s q then Some (carf zero cl r last s) else alookup s last).
+Proof.
+  induction q as [|s q IH]; intros r last Hn Hr Hl Hcl Hz.
+  - exists r, last. cbn [mfold]. unfold nmem. cbn [existsb].
+    split; [reflexivity|]. split; [exact Hr|]. split; [exact Hl|]. split; intros s; reflexivity.
+  - inversion Hn as [|? ? Hnin Hn']; subst.
+    destruct (fill_sec_spec zero cl r last s Hr Hl Hcl (Hz s (or_introl eq_refl)))
+      as [r1 [last1 [E1 [Hr1 [Hl1 [Hs1 [Ho1 [Hs2 Ho2]]]]]]]].
+    destruct (IH r1 last1 Hn' Hr1 Hl1 Hcl (fun s' H => Hz s' (or_intror H)))
+      as [r2 [last2 [E2 [Hr2 [Hl2 [Hc2 Hla2]]]]]].
+    exists r2, last2. cbn [mfold]. rewrite E1. cbn [bind]. split; [exact E2|].
+    split; [exact Hr2|]. split; [exact Hl2|].
+    assert (Hval : forall s', s' <> s -> valf zero r1 last1 s' = valf zero r last s').
+    { intros s' Hne. unfold valf, lastval. rewrite (Ho1 s' Hne), (Ho2 s' Hne). reflexivity. }
+    split; intros s'; [rewrite Hc2|rewrite Hla2]; unfold nmem; cbn [existsb]; fold (nmem s' q).
+    + destruct (N.eqb_spec s' s) as [->|Hne]; cbn [orb].
+      * destruct (nmem s q) eqn:E; [apply nmem_true in E; contradiction|]. exact Hs1.
+      * destruct (nmem s' q); [rewrite (Hval s' Hne); reflexivity|apply Ho1; exact Hne].
+    + destruct (N.eqb_spec s' s) as [->|Hne]; cbn [orb].
+      * destruct (nmem s q) eqn:E; [apply nmem_true in E; contradiction|]. exact Hs2.
+      * destruct (nmem s' q); [|apply Ho2; exact Hne].
+        unfold carf. rewrite (Hval s' Hne). reflexivity.
+Qed.
+
+(* ------------------------------------------------------------------ *)
+(* the specification by days: carried values                             *)
+
+Definition before (d : Z) (l : list cdelta) : list cdelta := filter (fun c => cd_day c <? d) l.
+Definition upto (d : Z) (l : list cdelta) : list cdelta := filter (fun c => cd_day c <=? d) l.
+Definition opening (ds : list cdelta) (s : N) : Qc :=
+  match rows_of ds s with c :: _ => pre_of c | [] => 0%Qc end.
+Definition carry_in (ds : list cdelta) (d : Z) (s : N) : Qc :=
+  match last_opt (before d (rows_of ds s)) with Some c => post_of c | None => opening ds s end.
+Definition carry_out (ds : list cdelta) (d : Z) (s : N) : Qc :=
+  match last_opt (upto d (rows_of ds s)) with Some c => post_of c | None => opening ds s end.
+
+Lemma spec_cost_unfold ds d s :
+  spec_cost ds d s = match dmax ds d s with Some m => m | None => carry_in ds d s end.
+Proof. reflexivity. Qed.
+
+Lemma before_nil d r : Forall (fun b => d <= cd_day b) r -> filter (fun c => cd_day c <? d) r = [].
+Proof.
+  induction 1 as [|b t Hb _ IH]; [reflexivity|]. cbn [filter].
+  destruct (Z.ltb_spec (cd_day b) d); [lia|]. exact IH.
+Qed.
+
+Lemma upto_split d l :
+  StronglySorted (fun a b => cd_day a <= cd_day b) l -> upto d l = before d l ++ on_day d l.
+Proof.
+  induction 1 as [|a r Hs IH Hall]; [reflexivity|].
+  unfold upto, before, on_day in *. cbn [filter].
+  destruct (Z.ltb_spec (cd_day a) d) as [Hlt|Hge].
+  - destruct (Z.leb_spec (cd_day a) d) as [_|H]; [|lia].
+    destruct (Z.eqb_spec (cd_day a) d) as [E|_]; [lia|]. cbn [app]. f_equal. exact IH.
+  - destruct (Z.eqb_spec (cd_day a) d) as [E|Hne].
+    + destruct (Z.leb_spec (cd_day a) d) as [_|H]; [|lia].
+      assert (Hb : filter (fun c => cd_day c <? d) r = []).
+      { apply before_nil. eapply Forall_impl; [|exact Hall]. intros b Hb. cbn beta in Hb. lia. }
+      rewrite Hb in *. cbn [app] in *. f_equal. exact IH.
+    + destruct (Z.leb_spec (cd_day a) d) as [H|_]; [lia|]. exact IH.
+Qed.
+
+Lemma qmax_map_none {X} (f : X -> Qc) l : qmax_list (map f l) = None <-> l = [].
+Proof. destruct l; cbn [map qmax_list]; split; intros H; try reflexivity; discriminate. Qed.
+
+Lemma dmax_none_on ds d s : dmax ds d s = None <-> on_day d (rows_of ds s) = [].
+Proof. apply qmax_map_none. Qed.
+
+Lemma dclose_on ds d s :
+  dclose ds d s = match last_opt (on_day d (rows_of ds s)) with Some c => Some (post_of c) | None => None end.
+Proof. unfold dclose. destruct (last_opt _); reflexivity. Qed.
+
+Lemma last_opt_none {X} (l : list X) : last_opt l = None <-> l = [].
+Proof.
+  split; [|intros ->; reflexivity]. induction l as [|a r IH]; [reflexivity|].
+  cbn [last_opt]. destruct r; [discriminate|]. intros H. apply IH in H. discriminate.
+Qed.
+
+(* value carried out of a day, in terms of what the model has at hand *)
+Lemma carry_out_eq ds d s :
+  chronological ds ->
+  carry_out ds d s = match dclose ds d s with
+                     | Some c => c
+                     | None => match dmax ds d s with Some m => m | None => carry_in ds d s end
+                     end.
+Proof.
+  intros Hch. unfold carry_out. rewrite (upto_split d _ (Hch s)), dclose_on.
+  destruct (on_day d (rows_of ds s)) as [|a t] eqn:E.
+  - rewrite app_nil_r. cbn [last_opt]. rewrite (proj2 (dmax_none_on ds d s) E). reflexivity.
+  - rewrite last_opt_app by discriminate.
+    destruct (last_opt (a :: t)) as [c|] eqn:El; [reflexivity|].
+    apply last_opt_none in El. discriminate.
+Qed.
+
+(* ------------------------------------------------------------------ *)
+(* second loop over the sorted days                                      *)
+
+Lemma sorted_le_nodup_lt l : StronglySorted Z.le l -> NoDup l -> StronglySorted Z.lt l.
+Proof.
+  induction 1 as [|a r Hs IH Hall]; intros Hn; [constructor|].
+  inversion Hn as [|? ? Hnin Hn']; subst. constructor; [apply IH; exact Hn'|].
+  rewrite Forall_forall in *. intros x Hx. specialize (Hall x Hx).
+  assert (x <> a) by (intros ->; contradiction). lia.
+Qed.
+
+Lemma sorted_lt_mid (l1 : list Z) d l2 :
+  StronglySorted Z.lt (l1 ++ d :: l2) -> (forall x, In x l1 -> x < d) /\ (forall x, In x l2 -> d < x).
+Proof.
+  induction l1 as [|a r IH]; cbn [app]; intros H.
+  - inversion H as [|? ? _ Hall]; subst. rewrite Forall_forall in Hall. split; [intros x []|exact Hall].
+  - inversion H as [|? ? Hs Hall]; subst. destruct (IH Hs) as [H1 H2]. split; [|exact H2].
+    intros x [<-|Hx]; [|apply H1; exact Hx].
+    rewrite Forall_forall in Hall. apply Hall. apply in_or_app. right. left. reflexivity.
+Qed.
+
+Lemma zupdate_same_keys {V} k (v v0 : V) l :
+  zlookup k l = Some v0 -> map fst (zupdate k v l) = map fst l.
+Proof.
+  intros H. rewrite zupdate_keys.
+  destruct (existsb (Z.eqb k) (map fst l)) eqn:E; [reflexivity|].
+  assert (Hin : In k (map fst l)) by (apply zlookup_in_keys; eauto).
+  apply existsb_zeqb_in in Hin. congruence.
+Qed.
+
+Section Loop2.
+  Variable ds : list cdelta.
+  Variable st : st1.
+  Hypothesis HI : Inv1 ds st.
+  Hypothesis Hv : Forall valid_delta ds.
+  Hypothesis Hch : chronological ds.
+
+  Let so := nsort (s_secs st).
+  Let D := zsort (map fst (s_days st)).
+  Let zero := s_zero st.
+
+  Lemma so_nodup : NoDup so.
+  Proof. eapply Permutation_NoDup; [apply Permutation_sym, nsort_perm|apply (i_secs _ _ HI)]. Qed.
+  Lemma so_in s : In s so <-> rows_of ds s <> [].
+  Proof. unfold so. rewrite nsort_in. apply (i_secs_in _ _ HI). Qed.
+
+  Lemma row_facts s c : In c (rows_of ds s) -> In c ds /\ counted c = true /\ cd_sec c = s.
+  Proof.
+    unfold rows_of. rewrite filter_In. intros [Hin Hb]. apply andb_prop in Hb. destruct Hb as [Hc Hs].
+    apply N.eqb_eq in Hs. auto.
+  Qed.
+  Lemma row_post_nonneg s c : In c (rows_of ds s) -> (0 <= post_of c)%Qc.
+  Proof.
+    intros H. destruct (row_facts s c H) as [Hin [Hc _]]. rewrite Forall_forall in Hv.
+    destruct (Hv c Hin Hc) as [[p [Ep Hp]] _]. unfold post_of. rewrite Ep. exact Hp.
+  Qed.
+  Lemma row_pre_nonneg s c : In c (rows_of ds s) -> (0 <= pre_of c)%Qc.
+  Proof.
+    intros H. destruct (row_facts s c H) as [Hin [Hc _]]. rewrite Forall_forall in Hv.
+    destruct (Hv c Hin Hc) as [_ [q [Eq Hq]]]. unfold pre_of. rewrite Eq. exact Hq.
+  Qed.
+  Lemma row_day_in_D s c : In c (rows_of ds s) -> In (cd_day c) D.
+  Proof.
+    intros H. destruct (row_facts s c H) as [Hin [Hc _]]. unfold D. rewrite zsort_in.
+    apply (i_keys_in _ _ HI). exists c. auto.
+  Qed.
+
+  Lemma D_sorted : StronglySorted Z.lt D.
+  Proof.
+    apply sorted_le_nodup_lt; [apply zsort_sorted|].
+    eapply Permutation_NoDup; [apply Permutation_sym, zsort_perm|apply (i_keys _ _ HI)].
+  Qed.
+
+  Lemma zero_ok_so : zero_ok zero so.
+  Proof.
+    intros s Hs. apply so_in in Hs. unfold zero. rewrite (i_zero _ _ HI). unfold zero_of.
+    destruct (rows_of ds s) as [|c0 t] eqn:E; [contradiction|].
+    exists (cd_day c0), (pre_of c0). split; [reflexivity|]. apply (row_pre_nonneg s). rewrite E. left. reflexivity.
+  Qed.
+
+  Lemma zero_pre_opening s : In s so -> zero_pre zero s = opening ds s.
+  Proof.
+    intros Hs. apply so_in in Hs. unfold zero_pre, zero, opening. rewrite (i_zero _ _ HI). unfold zero_of.
+    destruct (rows_of ds s); [contradiction|reflexivity].
+  Qed.
+
+  Lemma last_opt_in {X} (l : list X) x : last_opt l = Some x -> In x l.
+  Proof.
+    induction l as [|a r IH]; [discriminate|]. cbn [last_opt]. destruct r as [|b t].
+    - intros H. inversion H. left. reflexivity.
+    - intros H. right. apply IH. exact H.
+  Qed.
+
+  Lemma close_nonneg d : lk_nonneg (match zlookup d (s_close st) with Some c => c | None => [] end).
+  Proof.
+    intros s v H.
+    assert (E : close_at (s_close st) d s = Some v).
+    { unfold close_at. destruct (zlookup d (s_close st)); [exact H|discriminate]. }
+    rewrite (i_close _ _ HI), dclose_on in E.
+    destruct (last_opt (on_day d (rows_of ds s))) as [c|] eqn:El; [|discriminate].
+    inversion E; subst. apply (row_post_nonneg s). apply last_opt_in in El.
+    unfold on_day in El. apply filter_In in El. tauto.
+  Qed.
+
+  Record Inv2 (Dp : list Z) (x : list (Z * dayrec) * list (N * Qc)) : Prop := {
+    j_keys : map fst (fst x) = map fst (s_days st);
+    j_done : forall d, In d Dp -> exists r,
+               zlookup d (fst x) = Some r /\ rec_ok r /\
+               (forall s, In s so -> alookup s (dr_costs r) = Some (spec_cost ds d s)) /\
+               (forall s, In s (map fst (dr_costs r)) -> In s so);
+    j_todo : forall d, ~ In d Dp -> zlookup d (fst x) = zlookup d (s_days st);
+    j_lastn : lk_nonneg (snd x);
+    j_lastv : forall s d', In s so -> (forall y, In y Dp -> y < d') ->
+                           (forall y, In y D -> y < d' -> In y Dp) ->
+                           lastval zero (snd x) s = carry_in ds d' s
+  }.
+
+  Lemma before_nil_D d s : (forall y, In y D -> ~ y < d) -> before d (rows_of ds s) = [].
+  Proof.
+    intros H. unfold before. apply before_nil. rewrite Forall_forall. intros c Hc.
+    specialize (H _ (row_day_in_D s c Hc)). lia.
+  Qed.
+
+  Lemma Inv2_init : Inv2 [] (s_days st, []).
+  Proof.
+    constructor; cbn [fst snd].
+    - reflexivity.
+    - intros d [].
+    - reflexivity.
+    - intros s v H. discriminate.
+    - intros s d' Hs _ Hno. unfold lastval. cbn [alookup]. rewrite (zero_pre_opening s Hs).
+      unfold carry_in. rewrite before_nil_D; [reflexivity|]. intros y Hy Hlt. apply (Hno y Hy Hlt).
+  Qed.
+
+  Lemma nmem_so s : In s so -> nmem s so = true.
+  Proof. apply nmem_true. Qed.
+
+  Lemma day_step Dp d' Dr x :
+    D = Dp ++ d' :: Dr -> Inv2 Dp x ->
+    exists x', fill_day exact CarryClosing zero (s_close st) so x d' = Ok x' /\ Inv2 (Dp ++ [d']) x'.
+  Proof.
+    intros HD HJ. destruct x as [days last].
+    assert (Hsorted := D_sorted). rewrite HD in Hsorted.
+    destruct (sorted_lt_mid Dp d' Dr Hsorted) as [Hlt Hgt].
+    assert (HdD : In d' D) by (rewrite HD; apply in_or_app; right; left; reflexivity).
+    assert (Hnotin : ~ In d' Dp) by (intros H; specialize (Hlt _ H); lia).
+    assert (Hsplit : forall y, In y D -> y < d' -> In y Dp).
+    { intros y Hy Hyd. rewrite HD in Hy. apply in_app_or in Hy. destruct Hy as [Hy|[Hy|Hy]]; [exact Hy|lia|].
+      specialize (Hgt _ Hy). lia. }
+    assert (Hkey : In d' (map fst (s_days st))) by (unfold D in HdD; apply zsort_in in HdD; exact HdD).
+    apply zlookup_in_keys in Hkey. destruct Hkey as [r0 Er0].
+    assert (Er0' : zlookup d' days = Some r0) by (rewrite (j_todo _ _ HJ d' Hnotin); exact Er0).
+    assert (Hr0 : rec_ok r0) by (eapply (i_days_ok _ _ HI); exact Er0).
+    assert (Hr0c : forall s, alookup s (dr_costs r0) = dmax ds d' s).
+    { intros s. rewrite <- (i_days _ _ HI). unfold day_costs. rewrite Er0. reflexivity. }
+    set (cl := match zlookup d' (s_close st) with Some c => c | None => [] end).
+    assert (Hcl : forall s, alookup s cl = dclose ds d' s).
+    { intros s. rewrite <- (i_close _ _ HI). unfold close_at, cl. destruct (zlookup d' (s_close st)); reflexivity. }
+    destruct (fill_secs_spec zero cl so r0 last so_nodup Hr0 (j_lastn _ _ HJ) (close_nonneg d') zero_ok_so)
+      as [r' [last' [E [Hr' [Hl' [Hc' Hla']]]]]].
+    assert (Hvalf : forall s, In s so -> valf zero r0 last s = spec_cost ds d' s).
+    { intros s Hs. rewrite spec_cost_unfold. unfold valf. rewrite Hr0c.
+      destruct (dmax ds d' s); [reflexivity|].
+      apply (j_lastv _ _ HJ s d' Hs Hlt Hsplit). }
+    exists (zupdate d' r' days, last'). split.
+    - unfold fill_day. cbn [fst snd]. rewrite Er0'. fold cl. rewrite E. reflexivity.
+    - constructor; cbn [fst snd].
+      + rewrite (zupdate_same_keys d' r' r0 days Er0'). apply (j_keys _ _ HJ).
+      + intros d Hd. apply in_app_or in Hd. destruct Hd as [Hd|[<-|[]]].
+        * assert (d <> d') by (intros ->; contradiction).
+          rewrite zlookup_zupdate_neq by assumption. apply (j_done _ _ HJ d Hd).
+        * exists r'. rewrite zlookup_zupdate_eq. split; [reflexivity|]. split; [exact Hr'|]. split.
+          -- intros s Hs. rewrite Hc', (nmem_so s Hs), (Hvalf s Hs). reflexivity.
+          -- intros s Hs. apply alookup_in_keys in Hs. destruct Hs as [v Hs]. rewrite Hc' in Hs.
+             destruct (nmem s so) eqn:En; [apply nmem_true; exact En|].
+             apply so_in. intros Hnil. rewrite Hr0c in Hs. unfold dmax in Hs. rewrite Hnil in Hs. discriminate.
+      + intros d Hd. assert (d <> d') by (intros ->; apply Hd; apply in_or_app; right; left; reflexivity).
+        rewrite zlookup_zupdate_neq by assumption. apply (j_todo _ _ HJ).
+        intros Hin. apply Hd. apply in_or_app. left. exact Hin.
+      + exact Hl'.
+      + intros s d'' Hs Hall Honly. unfold lastval. rewrite Hla', (nmem_so s Hs).
+        assert (Hcar : carf zero cl r0 last s = carry_out ds d' s).
+        { rewrite (carry_out_eq ds d' s Hch). unfold carf. rewrite Hcl.
+          destruct (dclose ds d' s); [reflexivity|]. rewrite (Hvalf s Hs). apply spec_cost_unfold. }
+        rewrite Hcar. unfold carry_in, carry_out. f_equal. f_equal.
+        unfold before, upto. apply filter_ext_in. intros c Hc.
+        assert (HyD := row_day_in_D s c Hc). set (y := cd_day c) in *.
+        assert (Hd'' : d' < d'') by (apply Hall; apply in_or_app; right; left; reflexivity).
+        destruct (Z.leb_spec y d') as [Hle|Hgt'].
+        * apply Z.ltb_lt. lia.
+        * apply Z.ltb_ge. destruct (Z.lt_ge_cases y d'') as [Hlt''|Hge]; [|lia].
+          specialize (Honly y HyD Hlt''). apply in_app_or in Honly. destruct Honly as [Hin|[<-|[]]]; [|lia].
+          specialize (Hlt y Hin). lia.
+  Qed.
+
+  Lemma loop2_days Dr : forall Dp x,
+    D = Dp ++ Dr -> Inv2 Dp x ->
+    exists x', mfold (fill_day exact CarryClosing zero (s_close st) so) Dr x = Ok x' /\ Inv2 D x'.
+  Proof.
+    induction Dr as [|d' Dr IH]; intros Dp x HD HJ.
+    - exists x. split; [reflexivity|]. rewrite HD, app_nil_r. exact HJ.
+    - destruct (day_step Dp d' Dr x HD HJ) as [x1 [E1 HJ1]].
+      destruct (IH (Dp ++ [d']) x1) as [x2 [E2 HJ2]]; [rewrite <- app_assoc; exact HD|exact HJ1|].
+      exists x2. cbn [mfold]. rewrite E1. cbn [bind]. split; assumption.
+  Qed.
+
+  Lemma loop2_spec :
+    exists days, loop2 exact CarryClosing so st = Ok days /\ Inv2 D (days, []) \/
+                 exists last, loop2 exact CarryClosing so st = Ok days /\ Inv2 D (days, last).
+  Proof.
+    destruct (loop2_days D [] (s_days st, []) eq_refl Inv2_init) as [[days last] [E HJ]].
+    exists days. right. exists last. split; [|exact HJ].
+    unfold loop2. fold D zero. rewrite E. reflexivity.
+  Qed.
+End Loop2.
